@@ -135,7 +135,7 @@ func startDriver(path string, res *Result) (*driver, error) {
 				// Spec operations carry all their inputs: they are compared even after an earlier
 				// difference in the same case, and they do not poison it
 				d.onMismatch(p, lean)
-			} else if lean != p.goOut && !poisoned {
+			} else if lean != p.goOut && (!poisoned || !stateDependent(p.op)) {
 				// later ops of this case depend on the state this op left behind: do not compare them
 				poisoned = true
 				d.onMismatch(p, lean)
@@ -181,6 +181,18 @@ func (d *driver) onMismatch(p pending, lean string) {
 	if len(res.Mismatches) < 20 {
 		res.Mismatches = append(res.Mismatches, Mismatch{Stream: d.stream, Op: p.op, Go: p.goOut, Lean: lean, Case: p.caseOps, Class: p.class})
 	}
+}
+
+// stateDependent: operations that read the driver's registers (current share list, splitter,
+// builder, counter). After a difference in a case only these are skipped; operations that carry
+// all their inputs are always compared.
+func stateDependent(op string) bool {
+	for _, pre := range []string{"sh ", "css ", "sss ", "b ", "cnt add", "cnt revert", "cnt new"} {
+		if strings.HasPrefix(op, pre) {
+			return true
+		}
+	}
+	return false
 }
 
 func (d *driver) relevant(op string) bool {
@@ -322,7 +334,7 @@ var propOps = map[string][]string{
 	"C01": {"sq build", "sq construct"},
 	"C02": {"sq construct", "sh deconstruct"},
 	"C03": {"sq build", "sq construct"},
-	"C04": {"sq construct", "sq blobrange", "sh wpfbs"},
+	"C04": {"sq build", "sq construct", "sq blobrange", "sh wpfbs"},
 	"C05": {"commit roots", "sh rowroot"},
 	"C06": {"sq build", "b "},
 	"C07": {"sq build", "sq construct"},
